@@ -11,6 +11,7 @@ import (
 	. "github.com/frankkopp/FrankyGo/internal/types"
 
 	"github.com/frankkopp/FrankyGo/verif/refchess"
+	"github.com/frankkopp/FrankyGo/verif/space"
 	"github.com/frankkopp/FrankyGo/verif/vl"
 )
 
@@ -133,6 +134,18 @@ func c06(tier string, args []string) int {
 		}
 		fens = append(fens, f)
 	}
+	// stalemate traps with a blocked pawn on its initial rank (the cheap has-a-legal-move test decides stalemate in the tree)
+	trapLevel := 0
+	if tier == "thorough" {
+		trapLevel = 1
+	}
+	fens = append(fens, stalemateTraps(trapLevel)...)
+	// a double step that gives check and can only be answered by capturing that pawn en passant (one ply below the root)
+	epKinds := []int8{space.R}
+	if tier == "thorough" {
+		epKinds = []int8{space.B, space.R, space.N, space.Q}
+	}
+	fens = append(fens, space.EpEvasionRoots(epKinds, 1)...)
 	// the draw rules inside the tree: clocks 97..99 and shuffle histories (the root itself is never a draw)
 	drawStep := 4
 	if tier == "thorough" {
